@@ -117,15 +117,25 @@ def _route(ex, w, strategy, outs, n_next):
     return scripts
 
 
-def evaluate(ex, w, stream, inputs, R):
-    """inputs: per source replica a list of payload values; R: replicas of an unconstrained block.
-    -> per replica of the last block its output sequence"""
-    plan = stream.plan
-    if plan and plan[0][0] == 'binary':
-        raise Unsupported('binary plans are evaluated by evaluate_binary')
-    scripts = [[hlib.se('Item', deep_copy(v)) for v in vs] + [hlib.se('FlushAndRestart'), hlib.se('Terminate')]
-               for vs in inputs]
-    i, n = 0, len(scripts)
+def _scripts(inputs):
+    return [[hlib.se('Item', deep_copy(v)) for v in vs] + [hlib.se('FlushAndRestart'), hlib.se('Terminate')] for vs in inputs]
+
+
+def _next_replicas(plan, i, R):
+    """replication of the block opened by the connection before position i; -> (replicas, new position)"""
+    n_next = R
+    if i < len(plan) and plan[i][0] == 'repl':
+        rv = plan[i][1]
+        i += 1
+        if rv.variant in ('One', 'Host'):
+            n_next = 1
+        elif rv.variant == 'Limited':
+            n_next = min(R, rv.fields[0].v)
+    return n_next, i
+
+
+def run_stages(ex, w, plan, i, scripts, R):
+    """evaluate plan[i:] starting from the given per-replica input scripts of the current block"""
     while True:
         closures = []
         while i < len(plan) and plan[i][0] == 'op':
@@ -136,21 +146,39 @@ def evaluate(ex, w, stream, inputs, R):
             hlib.check_grammar(ex, o, 1, 'block output')
         if i >= len(plan):
             return outs
-        assert plan[i][0] == 'connect'
+        if plan[i][0] != 'connect':
+            raise Unsupported('plan stage %s' % plan[i][0])
         strategy = plan[i][1]
-        i += 1
-        n_next = R
-        if i < len(plan) and plan[i][0] == 'repl':
-            rv = plan[i][1]
-            i += 1
-            if rv.variant in ('One',):
-                n_next = 1
-            elif rv.variant == 'Limited':
-                n_next = min(R, rv.fields[0].v)
-            elif rv.variant == 'Host':
-                n_next = 1
+        n_next, i = _next_replicas(plan, i + 1, R)
         scripts = _route(ex, w, strategy, outs, n_next)
-        n = n_next
+
+
+def evaluate(ex, w, stream, inputs, R, inputs_right=None):
+    """inputs: per source replica a list of payload values; R: replicas of an unconstrained block.
+    -> per replica of the last block its output sequence"""
+    plan = stream.plan
+    if plan and plan[0][0] == 'binary':
+        _, L, Rt, _ctor, s1, s2 = plan[0]
+        outs_l = evaluate(ex, w, L, inputs, R)
+        outs_r = evaluate(ex, w, Rt, inputs_right, R)
+        n_next, i = _next_replicas(plan, 1, R)
+        if s1.variant == 'OnlyOne' and s2.variant == 'OnlyOne':
+            if len(outs_l) != len(outs_r):
+                raise Violation('forward binary connection between blocks of different replication', hlib._wit(ex))
+            n_next = len(outs_l)
+        be = dict(w.src.enum_variants('BinaryElement'))
+        wrap = lambda side, seq: [hlib.se('Item', Enum('BinaryElement', side, be[side], [deep_copy(e.fields[0])])) for e in seq]
+        end = lambda side: hlib.se('Item', Enum('BinaryElement', side, be[side], []))
+        sl = _route(ex, w, s1, outs_l, n_next)
+        sr = _route(ex, w, s2, outs_r, n_next)
+        scripts = []
+        for r in range(n_next):
+            a = wrap('Left', _data(sl[r])) + [end('LeftEnd')]
+            b = wrap('Right', _data(sr[r])) + [end('RightEnd')]
+            scripts.append(_interleave(ex, [a, b], 'left/right arrival at the binary start') +
+                           [hlib.se('FlushAndRestart'), hlib.se('Terminate')])
+        return run_stages(ex, w, plan, i, scripts, R)
+    return run_stages(ex, w, plan, 0, _scripts(inputs), R)
 
 
 # ------------------------------------------------------------------------------------ aggregations (C07)
@@ -379,3 +407,148 @@ def agg_plan_tasks(tier, role):
                                   (b, nv, ', keys 0/1' if AGG[b][1] else '', R, op),
                            role=role, opts={'covers': ['aggregated'], 'panic_is_violation': False}, budget=300))
     return ts
+
+
+# ------------------------------------------------------------------------------------ joins (C08)
+
+JOIN_APIS = {
+    # name: ([(type, method)...] applied after join_with, variant, keyed result?)
+    'join': ([('Stream', 'join')], 'inner'),
+    'left_join': ([('Stream', 'left_join')], 'left'),
+    'outer_join': ([('Stream', 'outer_join')], 'outer'),
+    'hash_hash_outer': ([('Stream', 'join_with'), ('JoinStream', 'ship_hash'), ('JoinStreamShipHash', 'local_hash'),
+                         ('JoinStreamLocalHash', 'outer')], 'outer'),
+    'hash_sort_merge_left': ([('Stream', 'join_with'), ('JoinStream', 'ship_hash'), ('JoinStreamShipHash', 'local_sort_merge'),
+                              ('JoinStreamLocalSortMerge', 'left')], 'left'),
+    'broadcast_hash_left': ([('Stream', 'join_with'), ('JoinStream', 'ship_broadcast_right'),
+                             ('JoinStreamShipBroadcastRight', 'local_hash'), ('JoinStreamLocalHash', 'left')], 'left'),
+    'broadcast_sort_merge_inner': ([('Stream', 'join_with'), ('JoinStream', 'ship_broadcast_right'),
+                                    ('JoinStreamShipBroadcastRight', 'local_sort_merge'),
+                                    ('JoinStreamLocalSortMerge', 'inner')], 'inner'),
+}
+
+
+def _pick(w, ty, meth, want_stream_result=None):
+    fns = w.impls[(None, ty)][meth]
+    return fns
+
+
+def join_plan_harness(w, api, nl, nr, R):
+    steps, variant = JOIN_APIS[api]
+
+    def h(ex):
+        ex.env['generics'] = {'K': 'u64', 'Key': 'u64'}
+        ex.env['hash_order'] = 'any'
+        mk = lambda n, base, tag: [Agg('tuple', None, [Int('u64', ex.choose(2, 'key')), Int('u64', base + j)]) for j in range(n)]
+        lefts, rights = mk(nl, 10, 'l'), mk(nr, 20, 'r')
+        il, ir = [[] for _ in range(R)], [[] for _ in range(R)]
+        wl, wr = [], []
+        for it in lefts:
+            wl.append(ex.choose(R, 'source replica'))
+            il[wl[-1]].append(it)
+        for it in rights:
+            wr.append(ex.choose(R, 'source replica'))
+            ir[wr[-1]].append(it)
+        if ex.env.get('native'):
+            return _native_join_plan(ex, api, variant, lefts, rights, wl, wr, R)
+        cur = SymStream()
+        first = True
+        for ty, meth in steps:
+            fns = w.impls[(None, ty)][meth]
+            broadcast = any(t == 'JoinStreamShipBroadcastRight' for t, _ in steps)
+            if len(fns) > 1:
+                # several impl blocks define the method (ship strategy marker types): pick by the self type
+                mark = 'ShipBroadcastRight' if broadcast else 'ShipHash'
+                cand = [f for f in fns if mark in f.header.split(')')[0]] or fns
+                fn = cand[0]
+            else:
+                fn = fns[0]
+            args = [cur] + ([SymStream(), KeyMod(), KeyMod()] if first else [])
+            cur = ex.call_function(fn, args)
+            first = False
+        plan = unwrap_stream(cur)
+        outs = evaluate(ex, w, plan, il, R, inputs_right=ir)
+        data = [e for o in outs for e in _data(o)]
+        sx = lambda: {'api': api, 'left': [[repr(x) for x in p] for p in il], 'right': [[repr(x) for x in p] for p in ir],
+                      'output': [[repr(e) for e in o] for o in outs]}
+        opt = lambda v: None if (isinstance(v, Enum) and v.variant == 'None') else \
+            (v.fields[0].fields[1].v if isinstance(v, Enum) else v.fields[1].v)
+        got = []
+        for e in data:
+            key, pair = e.fields[0].fields
+            l, r = pair.fields
+            got.append((key.v, opt(l), opt(r)))
+        want = _join_oracle(variant, [(x.fields[0].v, x.fields[1].v) for x in lefts],
+                            [(x.fields[0].v, x.fields[1].v) for x in rights])
+        if sorted(got, key=repr) != sorted(want, key=repr):
+            raise Violation('%s output %s, the relational %s join is %s' % (api, sorted(got, key=repr), variant,
+                                                                           sorted(want, key=repr)), hlib._wit(ex), sx())
+        if any(l is not None and r is not None for _, l, r in want):
+            hlib.cover(ex, 'matched_pair')
+        return sx()
+    return h
+
+
+def _join_oracle(variant, lefts, rights):
+    want = []
+    for lk, lv in lefts:
+        ms = [rv for rk, rv in rights if rk == lk]
+        want += [(lk, lv, rv) for rv in ms]
+        if not ms and variant in ('left', 'outer'):
+            want.append((lk, lv, None))
+    if variant == 'outer':
+        for rk, rv in rights:
+            if not any(lk == rk for lk, _ in lefts):
+                want.append((rk, None, rv))
+    return want
+
+
+def _native_join_plan(ex, api, variant, lefts, rights, wl, wr, R):
+    """public-API replay (kind `pipe_join`): the real builder chain in a real job, the witness' items produced by the
+    witness' source replicas"""
+    from mirsym.executor import RustPanic
+    L = [(x.fields[0].v, x.fields[1].v) for x in lefts]
+    Rr = [(x.fields[0].v, x.fields[1].v) for x in rights]
+    args = [R, list(JOIN_APIS).index(api), len(L)]
+    for (k, v), p in zip(L, wl):
+        args += [k, v, p]
+    args.append(len(Rr))
+    for (k, v), p in zip(Rr, wr):
+        args += [k, v, p]
+    runner, prof = ex.env['native']
+    ex.env['native_used'] = True
+    txt = runner('pipe_join', args)[prof]
+    ex.env['native_out'] = txt
+    if txt == 'PANIC':
+        raise RustPanic('the real %s job panicked' % api)
+    if txt.startswith(('BADARGS', 'UNKNOWN', 'NORESULT', 'NOOUTPUT')):
+        raise Unsupported('native driver: ' + txt)
+    if txt.startswith('TIMEOUT'):
+        raise Violation('the real %s job does not terminate' % api, hlib._wit(ex))
+    sh = lambda x: '_' if x is None else str(x)
+    want = sorted('%d:%s-%s' % (k, sh(l), sh(r)) for k, l, r in _join_oracle(variant, L, Rr))
+    got = sorted(t for t in txt.split() if t != '-')
+    if got != want:
+        raise Violation('the real %s job (left %s on replicas %s, right %s on replicas %s) yields %s, the relational %s join is %s'
+                        % (api, L, wl, Rr, wr, got, variant, want), hlib._wit(ex))
+    return {'native': txt}
+
+
+def join_plan_tasks(tier, role):
+    R = 2
+    ts = []
+    for a in JOIN_APIS:
+        nl, nr = (2, 1) if JOIN_APIS[a][1] != 'outer' else (1, 2)
+        if tier != 'quick' and a in ('join', 'hash_hash_outer', 'broadcast_hash_left'):
+            nl, nr = 2, 2
+        ts.append(_join_task(a, nl, nr, R, role))
+    return ts
+
+
+def _join_task(a, nl, nr, R, role):
+    return Task('plan_' + a, 'join_plan_harness', {'api': a, 'nl': nl, 'nr': nr, 'R': R},
+                 bounds='join builder chain %s executed from MIR into a logical plan (binary connection with the strategies the '
+                        'builder chose), evaluated over %d left / %d right (key in {0,1}, id) items spread over %d source replicas '
+                        'per side in every way; real join operator driven from MIR, every arrival interleaving incl. which side '
+                        'ends first; one iteration' % (a, nl, nr, R), role=role,
+                 opts={'covers': ['matched_pair']}, budget=600)
